@@ -13,7 +13,12 @@ look at them later, or change them in place (error ^= recovery).  Single-model h
 models open in one process on the same file or on files sharing records, calls interleaved) are driven by such
 callers; served error i must equal recorded error start+i at call time in every such history, and an array the
 caller kept must still hold the recorded error / what the caller wrote at the end (model:
-ErrorModels/FileSession.v - models do not interfere, served arrays are fresh heap cells)."""
+ErrorModels/FileSession.v - models do not interfere, served arrays are fresh heap cells).
+
+Records are also varied below the level pack() writes them (harness/c18_extra.py): the hex payload and the stated
+length of a body record are chosen independently around the byte boundary; a served array must be exactly the first
+2n bits of a payload that really holds that many bits and whose stated length is 2n, every other record is refused
+(model: ErrorModels/FileRecords.v record_decision, served_from_payload, short_payload_refused)."""
 import hashlib
 import itertools
 import json
@@ -27,6 +32,7 @@ from fractions import Fraction
 import numpy as np
 
 from harness.common import bitstr, exc_class, coq_list, COQ
+from harness import c18_extra
 
 # own copy of the documented comment/blank pattern (the classification oracle is Python's re + json,
 # deliberately not qecsim's private compiled objects)
@@ -1392,7 +1398,14 @@ def run(ctx):
                 'against the record of the file that was under its path when it was opened, and against the model on the '
                 'lines the oracle read from that name at that moment (ErrorModels/FilePaths.v). nontrivial there = instance '
                 'opened on a path that held other contents when an earlier instance with the same start was opened on it, '
-                '>= 3 errors' % len(DEFECTS))
+                '>= 3 errors. Record stream: body records [hex payload, stated length] with the two parts varied independently '
+                'around the byte boundary (stated length 2n-9..2n+9, payload of every whole number of bytes within 16 bits of it '
+                'and the empty payload, random / all-ones / all-zeros bytes, lower / upper / mixed case, white space between and '
+                'around bytes, odd digit counts) for 11 (thorough 31) qubit counts, at the first / middle / last position of a '
+                'body of packed records, start at 0 / before / at / after the record / end of file, asked with the file\'s qubit '
+                'count and with the count the stated length or the payload size fits; decision from the record text alone '
+                '(served iff valid hex holding >= length bits and length = 2n, then exactly the first 2n payload bits; refused '
+                'with ValueError otherwise), nontrivial = a varied record is reached by a generate call' % len(DEFECTS))
     ctx.props_obligations()
     ctx.trusted += [
         'classification of raw lines (comment/blank regex ^\\s*(//.*)?$, json.loads, dict vs non-dict, text-mode line splitting) '
@@ -1438,7 +1451,7 @@ def run(ctx):
                                          scn.get('caller'))).encode('utf-8', 'surrogatepass')).hexdigest()[:20],
                       nt, kind, sample)
 
-        def do(scn, rec, kind, checker):
+        def do(scn, rec, kind, checker, nt=None):
             path = os.path.join(tmp, 'f%06d.jsonl' % (counter[0] + 1))
             if scn['text'] is not None:
                 with open(path, 'w', newline='', encoding='utf-8') as fh:
@@ -1449,7 +1462,7 @@ def run(ctx):
             del em
             if scn['text'] is not None:
                 os.remove(path)
-            record(scn, rec, kind, checker, lines, head, outs)
+            record(scn, rec, kind, checker, lines, head, outs, nt)
             if caller is not None:
                 check_kept(ctx, scn, rec, caller.final())
                 ctx.hist['caller/' + caller.policy] += 1
@@ -1513,6 +1526,10 @@ def run(ctx):
             if h[0] == 'OK' and not name.isidentifier():
                 ctx.violation('malformed-accepted:attr-name-not-identifier',
                               'extra header key %r is not a valid Python attribute name but is accepted' % name, replay_dict(scn))
+
+        # ---- 5b. records: payload and stated length varied independently around the byte boundary (harness/c18_extra.py);
+        #          a served array must be the first 2n bits of a payload that really holds them, anything else refused
+        c18_extra.run_records(ctx, do)
 
         # ---- 6. sessions: several models in one process (same file / files sharing records), interleaved histories,
         #         callers that collect the served arrays before use or change them in place -----------------------
